@@ -283,8 +283,8 @@ def conditions(tier, seed, active):
                 for b in kinds2:
                     if d != 3 and "typename" in (a, b) or d != 3 and "arr_typename" in (a, b):
                         continue
-                    if d == 3 and k1 == "type" and a in ("str", "arr_str"):
-                        continue
+                    if d == 3 and ((k1 in ("type", "disallow") and a in ("str", "arr_str")) or (k2 in ("type", "disallow") and b in ("str", "arr_str"))):
+                        continue      # Draft 3 accepts any string as a type name: those are catalogue members ("typename"), never free strings
                     if quick and (a not in CHEAP_KINDS or b not in CHEAP_KINDS or rng.random() < 0.65):
                         continue
                     if not quick and (a not in CHEAP_KINDS or b not in CHEAP_KINDS) and rng.random() < 0.7:
